@@ -226,7 +226,7 @@ def observe_sim(spec, shift, stats):
     # ---- A: live generators still carrying the parent's stream
     stale_places = set()
     for o in distinct:
-        stale_ids = {id(e.gen) for p, (e, st) in o.post.items() if p in pre_state and st == pre_state[p]}
+        stale_paths = {p for p, (e, st) in o.post.items() if p in pre_state and st == pre_state[p]}
         for p in sorted(live):
             if p not in o.post or p not in pre_state:
                 continue
@@ -241,7 +241,7 @@ def observe_sim(spec, shift, stats):
             if p in stale_places:
                 continue
             stale_places.add(p)
-            blame = S.blame_stale(e, stale_ids | {id(e.gen)}, kw)
+            blame = S.blame_stale(o.ds, p, stale_paths, kw)
             findings.append({"key": f"stale-generator:{blame}", "place": p, "confirm": True,
                              "what": f"after worker_init_fn({o.rank}) under worker seed (base {o.base}, rank {o.rank}) the live generator at "
                                      f"`stack{p}` (held by {_owner_name(e)}) was not overwritten: {kind}; every worker replays the stream "
